@@ -16,7 +16,7 @@ THEOREMS = [
     'Pfst.C02.unmake_dead', 'Pfst.C02.make_inv', 'Pfst.C02.setAst_inv_partial', 'Pfst.C02.setField_inv_partial',
     'Pfst.C02.root_identity', 'Pfst.C02.touch_preserves_links', 'Pfst.C02.linkInv_mem',
     'Pfst.C02.offset_touches_changed', 'Pfst.C02.offset_cache_coherent', 'Pfst.C02.view_heal', 'Pfst.C02.view_len',
-    'Pfst.C02.view_ops_valid',
+    'Pfst.C02.view_ops_valid', 'Pfst.C02.slicePut_flushes_children', 'Pfst.C02.unpar_flushes_self',
 ]
 RULE = ('(a) link store: _set_ast / _set_field / _unmake_fst_tree / _make_fst_tree / _touch / _touchall called '
         'directly on real nodes of corpus programs (fresh ASTs, ASTs carrying FSTs of another tree, valid_fst and '
@@ -24,8 +24,9 @@ RULE = ('(a) link store: _set_ast / _set_field / _unmake_fst_tree / _make_fst_tr
         'objects by identity, new ones up to renaming) compared with the Lean model; (b) the set of nodes whose '
         '_cache the _offset walk clears (sentinel entries) compared exactly with the Lean touched set, on real trees '
         'with boundary offset points, all tail/head, exclude/self_ variants; (c) FSTView window arithmetic: '
-        '(_start, _stop) after every editing method vs the Lean model; (e) put_line_comment / put_src(action=None) on real '
-        'statements with sentinel cache entries: every cache the model of the call site (_touchall(parents[,self])) '
+        '(_start, _stop) after every editing method vs the Lean model; (e) put_line_comment / put_src(action=None) / slice puts to Call, ClassDef, MatchClass / unpar() that overwrites '
+        'parentheses in place, on real nodes with sentinel cache entries: every cache the model of the call site '
+        '(_touchall(parents[,self]) resp. touch of every direct child) '
         'clears must be cleared (superset allowed); (d) random edit histories (replace / remove / '
         'insert / append / prepend / put_slice / put_src offset / put_src(action=None) on comment- and whitespace-only line tails / '
         'put_line_comment (add, replace shorter/longer/multi-byte, delete, full=True; statements ending 0..n enclosing blocks) / '
@@ -36,7 +37,9 @@ RULE = ('(a) link store: _set_ast / _set_field / _unmake_fst_tree / _make_fst_tr
 TRUSTED = [
     'modelled (Pfst/Links.lean): FST.__new__ child creation incl. re-use of an existing a.f, _make_fst_tree, '
     '_unmake_fst_tree, _set_ast, _set_field, _touch, _touchall, the f._cache.clear() visit pattern of _offset '
-    '(break/continue), FSTView._base_indices and the _stop updates of the FSTView editing methods',
+    '(break/continue), FSTView._base_indices and the _stop updates of the FSTView editing methods; the cache-flush tails '
+    'of _put_slice (Call/ClassDef/MatchClass: touch every direct child) and of _unparenthesize_grouping (in-place write: '
+    '_touchall(True, True, False)) as repaired by fixes/C02-F1 and C02-F3',
     'not modelled: identity of ctx/op singleton ASTs replaced by _make_fst_tree (harness feeds unique objects); allocation '
     'order of new FST objects (compared up to renaming); the contents of cached answers (loc/bloc/pars computation from '
     'source text) - these are compared on the real code against a fresh FST(root.src) and against recomputation after '
@@ -65,7 +68,8 @@ LEVEL_TEXT = ('Lean 4 theorems about an executable model of the FST/AST link sto
               'position re-establishes it with the same root FST object, the element loop of set_field links every new '
               'element and writes nothing else, no operation sequence changes the root FST, the _offset walk '
               'clears the cache of every node whose subtree positions changed (any tree satisfying geo, any parameters) '
-              'hence position-determined cached answers stay coherent, view windows stay valid windows. Tied to /repo '
+              'hence position-determined cached answers stay coherent, view windows stay valid windows, the repaired '
+              'cache-flush call sites (slice put to Call/ClassDef/MatchClass, unpar in-place write) empty the caches they must. Tied to /repo '
               'each run by running model and implementation on the same object graphs / trees / windows.')
 LEVEL_NOTE = ('Theorems are about the model; set_ast preservation is proved for the root position and set_field for the '
               'new elements only (general position: the Lean-evaluated invariant on every graph dumped after every edit '
@@ -92,6 +96,11 @@ EXTRA_PROGRAMS = [
     'async def k():\n    r = await(x)\n    for i in(a):\n        del(i)\n    return not(r)or(i)\n',
     'f((a), (b))\ng((a))\nclass B((object)): pass\nq = ((a, b))\np = (((c)))\n',
 ]
+
+
+def _acc(ctx, name, n):
+    d = ctx.dist.setdefault('correspondence_cases', {})
+    d[name] = d.get(name, 0) + n
 
 
 def _programs(ctx, n, stdlib=0, extra=0):
@@ -294,7 +303,7 @@ def corr_links(ctx, progs, per):
             if len(ctx.corr_disagreements) < 20:
                 ctx.corr_disagreements.append({'corr': name, 'first': first})
             ctx.hints.append((name, case))
-    ctx.dist.setdefault('correspondence_cases', {})[name] = len(cases)
+    _acc(ctx, name, len(cases))
     if cases:
         ctx.sample({'corr': name, 'op': {k: v for k, v in cases[0]['op'].items() if k != 'new'},
                     'n_ast': len(L.canon_state(cases[0]['state']['tree'], cases[0]['state']['store'], 0)['nodes'])})
@@ -421,7 +430,7 @@ def corr_touched(ctx, progs, per):
                     first.pop('impl')
                     first.pop('model_touched')
             ctx.hints.append((name, case))
-    ctx.dist.setdefault('correspondence_cases', {})[name] = len(cases)
+    _acc(ctx, name, len(cases))
     ctx.notes['geo_false_touched'] = geo_false
     if cases:
         ctx.sample({'corr': name, 'params': cases[0]['params'], 'n_nodes': len(_ids_of(cases[0]['tree']))})
@@ -565,7 +574,7 @@ def corr_views(ctx, n):
             bad += 1
             first = first or {'src': src, 'start': case['start'], 'stop': case['stop'], 'ops': case['ops'], 'model': m}
             ctx.hints.append((name, case))
-    ctx.dist.setdefault('correspondence_cases', {})[name] = len(cases)
+    _acc(ctx, name, len(cases))
     if cases:
         ctx.sample({'corr': name, 'case': cases[0]})
     if bad:
@@ -590,7 +599,29 @@ def _accessor_cases(arg):
             return out
         a = rng.choice(stmts)
         f = a.f
-        which = rng.choice(['line_comment', 'line_comment', 'put_src_none'])
+        which = rng.choice(['line_comment', 'line_comment', 'put_src_none', 'slice_put', 'slice_put', 'unpar_direct'])
+        if which == 'slice_put':
+            c = [x for _, x in nodes if isinstance(x, (ast.Call, ast.MatchClass)) or (isinstance(x, ast.ClassDef) and x.bases)]
+            if not c:
+                continue
+            a = rng.choice(c)
+            f = a.f
+        elif which == 'unpar_direct':
+            def tight(x):
+                try:
+                    l0 = root._lines[x.lineno - 1]
+                    c0 = l0.b2c(x.col_offset)
+                    l1 = root._lines[x.end_lineno - 1]
+                    c1 = l1.b2c(x.end_col_offset)
+                    return c0 >= 2 and l0[c0 - 1] == '(' and (l0[c0 - 2].isalnum() or l0[c0 - 2] == '_') \
+                        and l1[c1:c1 + 1] == ')' and l1[c1 + 1:c1 + 2].isalnum()
+                except Exception:
+                    return False
+            c = [x for _, x in nodes if isinstance(x, ast.expr) and getattr(x, 'end_col_offset', None) is not None and tight(x)]
+            if not c:
+                continue
+            a = rng.choice(c)
+            f = a.f
         for _, x in nodes:
             x.f._cache.clear()
             x.f._cache['sentinel'] = 1
@@ -601,6 +632,21 @@ def _accessor_cases(arg):
             if which == 'line_comment':
                 f.put_line_comment(rng.choice([None, '', 'y', 'a much longer comment than before', 'é ü']))
                 flags = {'parents': True, 'self': False, 'children': False}     # fst_trivia._getput_line_comment
+            elif which == 'slice_put':
+                fld = 'args' if isinstance(a, ast.Call) else 'bases' if isinstance(a, ast.ClassDef) else 'patterns'
+                n_el = len(getattr(a, fld))
+                i = rng.randint(0, n_el)
+                j = rng.randint(i, n_el)
+                code = rng.choice([None, None, 'zz', 'p, q']) if fld != 'patterns' else rng.choice([None, None, 'zz'])
+                if code is None and i == j:
+                    continue
+                f.put_slice(code, i, j, fld)
+                flags = None                                                    # fst_put_slice._put_slice (repaired tail)
+            elif which == 'unpar_direct':
+                f.unpar()
+                if len(root.src) != len(src0):
+                    continue        # at least one parenthesis was deleted through _put_src: the offset walk applies
+                flags = {'parents': True, 'self': True, 'children': False}      # fst_misc._unparenthesize_grouping (repaired)
             else:
                 ln = a.end_lineno - 1
                 line = root._lines[ln]
@@ -614,9 +660,11 @@ def _accessor_cases(arg):
             continue
         if f.a is not a or root.src == src0:
             continue        # nothing written: nothing has to be cleared
-        cleared = [i for i, fo in enumerate(ids.fobjs[:before['store']['next']]) if 'sentinel' not in getattr(fo, '_cache', {})]
+        olds = ids.fobjs[:before['store']['next']]
+        # dead objects (removed elements) need not be cleared: report them as cleared
+        cleared = [i for i, fo in enumerate(olds) if 'sentinel' not in getattr(fo, '_cache', {}) or fo.a is None]
         case = {'f': 'C02.op', 'state': {'tree': before['tree'], 'rootf': before['rootf'], 'store': before['store']},
-                'op': {'name': 'touchall', 'fst': ids.fid(f), **flags}}
+                'op': {'name': 'touchall', 'fst': ids.fid(f), **flags} if flags else {'name': 'touch_kids', 'fst': ids.fid(f)}}
         out.append((case, cleared, which, a.__class__.__name__))
     return out
 
@@ -648,7 +696,7 @@ def corr_accessors(ctx, progs, per):
             bad += 1
             first = first or {'accessor': which, 'on': kind, 'model_clears': must, 'impl_cleared': cleared, 'missing': missing}
             ctx.hints.append((name, case))
-    ctx.dist.setdefault('correspondence_cases', {})[name] = len(cases)
+    _acc(ctx, name, len(cases))
     if bad:
         ctx.brk('correspondence', name, f'{bad}/{len(cases)} cases: the implementation left caches uncleared that the '
                                         f'model of the call site clears; first: ' + json.dumps(first, default=str)[:1200])
@@ -657,26 +705,35 @@ def corr_accessors(ctx, progs, per):
 def correspondence(ctx):
     q = ctx.quick
     progs = _programs(ctx, 80 if q else 1200, 0 if q else 60)
-    corr_links(ctx, progs, 4 if q else 8)
-    corr_touched(ctx, progs, 5 if q else 12)
+    # in chunks: the cases carry whole object graphs, the parent must not hold all of them at once
+    for i in range(0, len(progs), 160):
+        chunk = progs[i:i + 160]
+        corr_links(ctx, chunk, 4 if q else 8)
+        corr_touched(ctx, chunk, 5 if q else 12)
+        corr_accessors(ctx, chunk + (EXTRA_PROGRAMS * 3 if i == 0 else []), 6 if q else 10)
+        if ctx.broken:
+            break
     corr_views(ctx, 30 if q else 400)
-    corr_accessors(ctx, progs + EXTRA_PROGRAMS * 3, 4 if q else 8)
 
 
 # ---------------------------------------------------------------------------------------------------------------------
 # (d) query-edit-query histories
 
 def _hist_worker(arg):
-    src, seed, nsteps = arg
+    src, seed, nsteps, keep = arg
     try:
         r = L.run_history(src, seed=seed, nsteps=nsteps, with_graphs=True)
     except RecursionError:
         return {'src': src, 'skipped': 'recursion'}
+    if not r['fails']:      # the pre-query lists are only needed in witnesses
+        r['steps'] = [{'op': st['op']} for st in r['steps']]
+    if keep == 'last':      # thorough: every graph is judged in plain Python by the worker, the Lean judge sees the last
+        r['graphs'] = r['graphs'][-1:]      # one of each history (memory: the parent holds all shipped graphs)
     return r
 
 
 def _histories(ctx, progs, nsteps, judge=True):
-    res = pmap(_hist_worker, [(p, ctx.rng.randrange(1 << 30), nsteps) for p in progs])
+    res = pmap(_hist_worker, [(p, ctx.rng.randrange(1 << 30), nsteps, 'all' if ctx.quick else 'last') for p in progs])
     graphs = []
     n_ops = 0
     for r in res:
@@ -711,7 +768,7 @@ def _histories(ctx, progs, nsteps, judge=True):
             py_ok = not g['py_bad']
             if not isinstance(m, dict) or m.get('inv') is not py_ok:
                 bad += 1      # the two evaluations of the invariant disagree: model/driver/harness problem
-        ctx.dist.setdefault('correspondence_cases', {})[name] = len(cases)
+        _acc(ctx, name, len(cases))
         if bad:
             ctx.brk('correspondence', name, f'{bad}/{len(cases)} graphs: Lean and Python evaluation of LinkInv disagree')
 
